@@ -58,8 +58,16 @@ def gen(rng, tier, index):
         elif k == "ident_damage":
             f["how"] = rng.choice(["lower_first", "digit_to_letter", "drop_slash_letter", "non_letter", "long_id"])
         faults.append(f)
-    if rng.random() < 0.02:  # rare: search a readout whose true CRC is 0 is hopeless; instead force checksum 0000
+    if rng.random() < 0.02:  # a transmitted checksum of 0000 on a readout whose CRC is something else
         faults.append({"k": "ck_replace", "pos": 0, "bit": 0, "ck": "0000"})
+    elif rng.random() < 0.004:
+        # ... and a readout whose genuine CRC really is 0x0000: the last data line carries a counter chosen so
+        body = p1_gen.build(dict(spec, ck="none", lines=spec["lines"] + ["0-0:96.13.0("]))
+        prefix = body[: body.rindex(b"(") + 1]
+        counter = p1_ref.find_counter_for_crc(prefix, b")\r\n!")
+        if counter is not None:
+            spec = dict(spec, lines=spec["lines"] + ["0-0:96.13.0(%s)" % counter.decode()], ck="good")
+            faults = [f for f in faults if f["k"] not in ("bitflip", "bang_inject", "nonascii_inject", "ident_damage", "ck_replace")]
     raw, _ = apply(spec, faults)
     pre = [rng.choice(ACCESSORS) for _ in range(rng.choice([0, 0, 0, 1, 2, 4]))]
     yield {"spec": spec, "faults": faults, "pre": pre, "cuts": fragment.draw(rng, len(raw), [raw.find(b"!"), raw.find(b"!") + 1, raw.find(b"\n")])}
